@@ -27,6 +27,8 @@ def _place(d, p, ix, depth):
         if isinstance(pr, dict) and "n" in pr:
             d.fields.add((pr.get("a"), pr["n"]))
             d.names.add(pr["n"])
+        elif isinstance(pr, dict) and "f" in pr:
+            d.names.add(f"#{pr['f']}")  # positional (tuple / closure) field
         if isinstance(pr, dict) and "i" in pr:
             _local(d, pr["i"], ix, depth + 1)
     _local(d, p["l"], ix, depth + 1)
